@@ -28,6 +28,7 @@ import time
 
 from tools import common as C
 from tools import features_front as FF
+from tools import c19_frames as XF
 
 PROP = "C19"
 CRATES = FF.CRATES
@@ -215,20 +216,23 @@ def write_harness2(expansion):
           + "\n".join(out) + "\n"
     _write_if_changed(os.path.join(src, "codec.rs"), new)
     _write_if_changed(os.path.join(src, "util.rs"), open(os.path.join(vh, "util.rs")).read())
+    _write_if_changed(os.path.join(src, "frames.rs"), XF.derive_frames(open(os.path.join(vh, "frames.rs")).read(), expansion))
     disp = os.path.join(vh, "generated", "login_dispatch.rs")
     if not os.path.exists(disp):
         subprocess.run(["python3", "-m", "tools.gen_dispatch"], cwd=C.VERIF, check=True)
     _write_if_changed(os.path.join(src, "generated", "login_dispatch.rs"), open(disp).read())
     _write_if_changed(os.path.join(src, "main.rs"), """//! @generated by tools/checks/c19.py - reduced-feature twin of `vh codec` (C19 differential).
 mod codec;
+mod frames;
 mod util;
 
 fn main() {
     let args: Vec<String> = std::env::args().collect();
     let rc = match args.get(1).map(|s| s.as_str()) {
         Some("codec") => codec::run(&args[2..]),
+        Some("frames") => frames::run(&args[2..]),
         _ => {
-            eprintln!("usage: vh2 codec");
+            eprintln!("usage: vh2 codec | frames");
             2
         }
     };
@@ -243,8 +247,11 @@ edition = "2021"
 publish = false
 
 [dependencies]
-wow_world_messages = { path = "%(repo)s/wow_world_messages", default-features = false, features = ["sync", "%(exp)s"] }
+wow_world_messages = { path = "%(repo)s/wow_world_messages", default-features = false, features = ["sync", "tokio", "async-std", "encryption", "%(exp)s"] }
 wow_login_messages = { path = "%(repo)s/wow_login_messages", default-features = false, features = ["sync"] }
+wow_srp = { version = "0.7.0", default-features = false, features = ["tbc-header", "wrath-header", "srp-default-math"] }
+tokio = { version = "1", default-features = false, features = ["io-util"] }
+futures-io = "0.3"
 serde_json = "1"
 flate2 = { version = "1", default-features = false, features = ["zlib"] }
 libc = "0.2"
@@ -293,14 +300,14 @@ def build_harness2():
     return os.path.join(C.CACHE, "target2", "debug", "vh2")
 
 
-def differential(tier, expansions, drop=None):
+def differential(tier, expansions, drop=None, drop_frames=None):
     """Returns (disagreements, stats). A disagreement: a record judged differently by the builds."""
     from tools import codec_common as CC
     from tools import replay as R
     from tools import wire
     ctx = CC.explore("quick", "c19")
     vh = C.build_harness("vh")
-    disagreements, stats = [], {"records": 0, "per_expansion": {}, "nonok_full": 0, "nonok_reduced": 0}
+    disagreements, stats = [], {"records": 0, "per_expansion": {}, "nonok_full": 0, "nonok_reduced": 0, "frames": {}}
     sample = None
     for exp in expansions:
         write_harness2(exp)
@@ -333,7 +340,13 @@ def differential(tier, expansions, drop=None):
             if A.get(k) != B.get(k):
                 disagreements.append({"record": k, "expansion_build": exp, "full": A.get(k, [("ok", "")]),
                                       "reduced": B.get(k, [("ok", "")]), "behaviour": keyed.get(k)})
-        stats["records"] += len(lines)
+        # second half: the frame-stream histories of spec/Framing.tla on both builds
+        fdis, fstats = XF.compare(tier, exp, vh, vh2, drop=drop_frames)
+        for d in fdis:
+            d["kind"] = "frames"
+        disagreements.extend(fdis)
+        stats["frames"][exp] = fstats
+        stats["records"] += len(lines) + fstats["histories"]
         stats["per_expansion"][exp] = {"records": len(lines), "non_ok_full": len(A), "non_ok_reduced": len(B)}
         stats["nonok_full"] += len(A)
         stats["nonok_reduced"] += len(B)
@@ -424,6 +437,12 @@ def run(tier, only_differential=False):
     dis, dstats = differential(tier, exps)
     for d in dis:
         rec = d["behaviour"] or {}
+        if d.get("kind") == "frames":
+            m = (rec.get("msgs") or [{}])[0]
+            v.report({"class": "differential_frames", "exp": rec.get("exp"), "entry": rec.get("entry"), "crypt": rec.get("crypt"),
+                      "name": m.get("name"), "body": m.get("body"), "full": str(d["full"])[:160],
+                      "reduced": str(d["reduced"])[:160]}, replay=d)
+            continue
         v.report({"class": "differential", "name": rec.get("name"), "exp": rec.get("exp"), "dir": rec.get("dir"),
                   "full": str(d["full"])[:120], "reduced": str(d["reduced"])[:120]}, replay=d)
     rc = v.finish()
@@ -447,7 +466,7 @@ def run(tier, only_differential=False):
         "unsupported_failures": unsupported_fail[:20],
         "documented_features": {c: table["crates"][c].get("documented") for c in table["crates"]},
         "documentation_findings": docfind,
-        "differential": {k: dstats[k] for k in ("records", "per_expansion", "nonok_full", "nonok_reduced", "wire_states")},
+        "differential": {k: dstats[k] for k in ("records", "per_expansion", "nonok_full", "nonok_reduced", "wire_states", "frames")},
         "differential_sample": dstats.get("sample"),
         "differential_disagreements": len(dis),
         "cargo_cpu_wall_s": round(cargo_secs, 1),
